@@ -80,7 +80,7 @@ def meta(tier):
                 assumptions=["the C-level UTF-8 decoder and open() are not encoded; only the registered Python error handler is",
                              "SystemExit is intercepted by the harness (it is an observable, reported as a violation)",
                              "a path running longer than 20 s is reported as non-termination and confirmed by a native run with a 60 s limit"],
-                budget_s=420 if q else 2400, unit_budget_s=120 if q else 900, path_timeout=20, native_timeout=60)
+                budget_s=420 if q else 1500, unit_budget_s=120 if q else 900, path_timeout=20, native_timeout=60)
 
 
 ALLOWED = ("ok", "FortranSyntaxError")
